@@ -6,18 +6,35 @@
 (* Model-level invariants: the reader as transcribed reports exactly Recount's   *)
 (* discrepancies on properly nested histories, never crashes, and reports at     *)
 (* least one envelope error on any history that is not properly nested.          *)
+(* Control numbers: the environment picks abstract ids (Ids) and a rendering      *)
+(* (style, fixed per behaviour); the history holds the CONCRETE strings that are  *)
+(* written into the document, so the definition compares what the reader reads:   *)
+(*   "num"   header and trailer zero-padded to 9 digits                           *)
+(*   "alnum" header and trailer 9 characters ending in a letter (not a number)    *)
+(*   "unpad" header zero-padded, trailer without padding (same number, other text)*)
 EXTENDS Naturals, Sequences, FiniteSets, TLC, Json, Envelope
 CONSTANTS MaxLen,       \* history length bound
           Kinds,        \* subset of {"ISA","GS","ST","SE","GE","IEA","HL","CLM","LX","B"}
           Ids,          \* control numbers to choose from
           CntModes,     \* subset of {"right","wrong","nonnum"}
           CheckLX,      \* BOOLEAN: caller enabled the 837 LX check
-          Prefix,       \* history every behaviour starts with (at least the leading ISA)
+          PrefixLen,    \* 1 or 3: every behaviour starts with ISA / ISA GS ST (abstract id "1")
+          Styles,       \* subset of {"num","alnum","unpad"}: renderings of the control numbers
           EmitAll,      \* emit every maximal history
           NestedOnly    \* only append segments that keep headers and trailers properly nested
-VARIABLES st, hist, errs, anyerr
-vars == <<st, hist, errs, anyerr>>
+VARIABLES st, hist, errs, anyerr, style
+vars == <<st, hist, errs, anyerr, style>>
 R == INSTANCE Recount
+
+(* ---- renderings of an abstract control number (a short digit string not ending in 0) ---- *)
+RECURSIVE Pad9(_)
+Pad9(s) == IF Len(s) >= 9 THEN s ELSE Pad9("0" \o s)
+Letters == <<"A", "B", "C", "D", "E", "F", "G", "H", "I">>
+Alnum(id) == SubSeq(Pad9(id), 1, 8) \o Letters[IntOf(SubSeq(id, Len(id), Len(id)))]
+HdrId(sty, id) == IF sty = "alnum" THEN Alnum(id) ELSE Pad9(id)
+TrlId(sty, id) == CASE sty = "alnum" -> Alnum(id) [] sty = "unpad" -> id [] OTHER -> Pad9(id)
+Prefix(sty) == SubSeq(<<Seg("ISA", HdrId(sty, "1"), "", "", ""), Seg("GS", HdrId(sty, "1"), "", "", ""),
+                        Seg("ST", HdrId(sty, "1"), "", "", "")>>, 1, PrefixLen)
 
 RECURSIVE RunPrefix(_, _, _)
 RunPrefix(s0, p, i) == IF i > Len(p) THEN s0 ELSE RunPrefix(Reader(s0, p[i], CheckLX).st, p, i + 1)
@@ -32,42 +49,41 @@ Right(h, k) ==   \* what the declared count / number must be for a segment of ki
     [] OTHER -> 0
 CntStr(h, k, m) == CASE m = "right" -> ToString(Right(h, k)) [] m = "wrong" -> ToString(Right(h, k) + 1) [] OTHER -> "X"
 
-Candidates(h) ==
+Candidates(h, sty) ==
   UNION {
-    IF k \in {"ISA", "GS", "ST"} THEN {Seg(k, id, "", "", "") : id \in Ids}
-    ELSE IF k \in {"SE", "GE", "IEA"} THEN {Seg(k, id, CntStr(h, k, m), "", "") : id \in Ids, m \in CntModes}
+    IF k \in {"ISA", "GS", "ST"} THEN {Seg(k, HdrId(sty, id), "", "", "") : id \in Ids}
+    ELSE IF k \in {"SE", "GE", "IEA"} THEN {Seg(k, TrlId(sty, id), CntStr(h, k, m), "", "") : id \in Ids, m \in CntModes}
     ELSE IF k = "HL" THEN {Seg("HL", "", "", CntStr(h, "HL", m), p) : m \in CntModes \ {"nonnum"}, p \in {"", "1", "2", "3"} \cup (IF "nonnum" \in CntModes THEN {"X"} ELSE {})}
     ELSE IF k = "LX" THEN (IF R!LastBefore(h, Len(h) + 1, "CLM") > R!LastBefore(h, Len(h) + 1, "ST")
                            THEN {Seg("LX", "", "", CntStr(h, "LX", m), "") : m \in CntModes \ {"nonnum"}} ELSE {})
     ELSE {Seg(k, "", "", "", "")}
     : k \in Kinds }
 
-Init == /\ hist = Prefix /\ st = RunPrefix(EnvInit, Prefix, 1) /\ errs = <<>> /\ anyerr = FALSE
+Init == /\ style \in Styles
+        /\ hist = Prefix(style) /\ st = RunPrefix(EnvInit, Prefix(style), 1) /\ errs = <<>> /\ anyerr = FALSE
 Step(s) == LET r == Reader(st, s, CheckLX) IN
            /\ hist' = Append(hist, s) /\ st' = r.st /\ errs' = r.errs
-           /\ anyerr' = (anyerr \/ r.errs # <<>>)
+           /\ anyerr' = (anyerr \/ r.errs # <<>>) /\ UNCHANGED style
 Next == /\ Len(hist) < MaxLen /\ ~st.crashed
-        /\ \E s \in Candidates(hist) : (NestedOnly => R!ProperlyNested(Append(hist, s))) /\ Step(s)
+        /\ \E s \in Candidates(hist, style) : (NestedOnly => R!ProperlyNested(Append(hist, s))) /\ Step(s)
 Spec == Init /\ [][Next]_vars
 
 ToSet(q) == {q[i] : i \in 1..Len(q)}
 (* model-level refinement Impl [= Def *)
-ExactOnNested == (Len(hist) > Len(Prefix) /\ ~st.crashed /\ R!ProperlyNested(hist)) => ToSet(errs) = R!Discrepancies(hist, CheckLX)
+ExactOnNested == (Len(hist) > PrefixLen /\ ~st.crashed /\ R!ProperlyNested(hist)) => ToSet(errs) = R!Discrepancies(hist, CheckLX)
 NoCrash == ~st.crashed
 CleanupOnNested == (~st.crashed /\ R!ProperlyNested(hist)) => ToSet(Cleanup(st)) = R!MissingAtEnd(hist)
 SomeErrorWhenNotNested == (~st.crashed /\ ~R!ProperlyNested(hist)) => (anyerr \/ Cleanup(st) # <<>>)
 (* total variants: print the history instead of stopping *)
 Diff == \/ st.crashed
-        \/ (R!ProperlyNested(hist) /\ Len(hist) > Len(Prefix) /\ ToSet(errs) # R!Discrepancies(hist, CheckLX))
+        \/ (R!ProperlyNested(hist) /\ Len(hist) > PrefixLen /\ ToSet(errs) # R!Discrepancies(hist, CheckLX))
         \/ (R!ProperlyNested(hist) /\ ToSet(Cleanup(st)) # R!MissingAtEnd(hist))
         \/ (~R!ProperlyNested(hist) /\ ~anyerr /\ Cleanup(st) = <<>>)
 DiffClass == IF st.crashed THEN "crash"
-             ELSE IF R!ProperlyNested(hist) /\ Len(hist) > Len(Prefix) /\ ToSet(errs) # R!Discrepancies(hist, CheckLX) THEN "exact"
+             ELSE IF R!ProperlyNested(hist) /\ Len(hist) > PrefixLen /\ ToSet(errs) # R!Discrepancies(hist, CheckLX) THEN "exact"
              ELSE IF R!ProperlyNested(hist) /\ ToSet(Cleanup(st)) # R!MissingAtEnd(hist) THEN "cleanup"
              ELSE "silent"
 ModelDiff == Diff => PrintT(<<"MODELDIFF", ToJson([c |-> DiffClass, h |-> hist])>>)
 Emit == (EmitAll /\ (Len(hist) = MaxLen \/ st.crashed)) => PrintT(<<"HIST", ToJson(hist)>>)
-ImplView == <<st, Len(hist), anyerr>>
-Prefix1 == <<Seg("ISA", "1", "", "", "")>>
-Prefix3 == <<Seg("ISA", "1", "", "", ""), Seg("GS", "1", "", "", ""), Seg("ST", "1", "", "", "")>>
+ImplView == <<st, Len(hist), anyerr, style>>
 =============================================================================
